@@ -868,6 +868,116 @@ Proof.
       * rewrite wuw_put. rewrite He'. unfold nn in Hlts. rewrite Hlts. reflexivity.
 Qed.
 
+(** ** lazy clones offered to push / insert whose Clone panics *)
+Lemma raw_action_clone_f c vv a u idx bs t0 k :
+  cfg_wf c -> VI c vv a -> dec (szn c) bs = Some t0 -> ufuse u = Some 0 -> can_take c vv 1 ->
+  match put_value c a idx (tok c (unext u)) with
+  | inl _ => exists v' u', raw_action c idx (VClone bs k) (vv, u) = Panic PUser (v', u') /\
+               VI c v' (with_xs a (match idx with None => a_xs a | Some i => firstn (N.to_nat i) (a_xs a) end)) /\
+               unext u' = unext u /\ uevents u' = uevents u
+  | inr p => raw_action c idx (VClone bs k) (vv, u) = Panic p (vv, u)
+  end.
+Proof.
+  intros Hwf HV Hd Hf Hc. assert (HV' := HV). destruct HV' as [HR Hbk Hbwf Hcap Hfits].
+  pose proof (rep_len _ _ _ HR) as Hlen. pose proof (rep_cap _ _ _ HR) as Hle.
+  assert (Hroom_of : full c a = false -> vlen vv < vcap vv \/ grow_ok c vv (vcap vv + 1)).
+  { intros Hfl. exact (vi_full_false c vv a HV Hfl Hc). }
+  assert (Hvi : forall v' xs', Rep c v' xs' -> vbk v' = vbk vv -> (vlen vv < vcap vv -> vcap v' = vcap vv) ->
+                               full c a = false -> VI c v' (with_xs a xs')).
+  { intros v' xs' HR' Hb' Hc' Hfl. constructor; cbn [with_xs a_bk a_xs]; auto; try congruence.
+    unfold full in Hfl. destruct (acap c (a_bk a)) as [cap|] eqn:Ea; [|exact I].
+    apply N.leb_gt in Hfl. rewrite Hc'; [exact Hcap|]. rewrite Hcap. lia. }
+  unfold put_value, raw_action. destruct idx as [i|].
+  - destruct (N.ltb_spec (N.of_nat (length (a_xs a))) i) as [Hoob|Hin].
+    + apply (insert_oob c vv u (a_xs a)); assumption.
+    + destruct (full c a) eqn:Hfl.
+      * destruct (vi_full_true c vv a HV Hfl) as [He Hfx].
+        apply (insert_full_fixed c vv u (a_xs a)); auto. lia.
+      * pose proof (Hroom_of eq_refl) as Hroom.
+        assert (Hi : (N.to_nat i <= length (a_xs a))%nat) by lia.
+        destruct (insert_clone_panics c vv u (a_xs a) bs t0 k (N.to_nat i) Hwf HR Hd Hf Hi Hroom)
+          as (v' & u' & E & HR' & Hn' & Hf' & He' & Hb' & Hc').
+        rewrite N2Nat.id in E. exists v', u'. split; [exact E|]. split; [apply Hvi; auto|]. auto.
+  - destruct (full c a) eqn:Hfl.
+    + destruct (vi_full_true c vv a HV Hfl) as [He Hfx].
+      apply (push_full_fixed c vv u (a_xs a)); auto.
+    + pose proof (Hroom_of eq_refl) as Hroom.
+      destruct (push_clone_panics c vv u (a_xs a) bs t0 k Hwf HR Hd Hf Hroom)
+        as (v' & u' & E & HR' & Hn' & Hf' & He' & Hb' & Hc').
+      exists v', u'. split; [exact E|]. split; [apply Hvi; auto|]. auto.
+Qed.
+
+Lemma wrep_after_panic c w st vid av idx v' u' :
+  WRep c w st -> get_a vid st = Some av ->
+  VI c v' (with_xs av (match idx with None => a_xs av | Some i => firstn (N.to_nat i) (a_xs av) end)) ->
+  WRep c (put_vec vid (Some v') u' w) (after_clone_panic st vid av idx).
+Proof.
+  intros HW Hg HV. destruct idx as [i|]; cbn [after_clone_panic].
+  - apply wrep_put; [exact HW|exact HV].
+  - intros n. unfold put_vec. cbn [wv]. rewrite slot_set_nth. destruct (Nat.eqb_spec n vid) as [->|]; [|apply HW].
+    rewrite <- get_a_slot, Hg. destruct av; exact HV.
+Qed.
+
+Lemma exec_offer_lazy_f c w st vid idx d src sidx r :
+  cfg_wf c -> WRep c w st -> ufuse (wuw w) = Some 0 -> adm_vec c w vid ->
+  sp_offer_lazy_f c st (unext (wuw w)) vid idx src sidx = Some r ->
+  res_matches_f c w ((do o <- make_offer c (SLazy d src sidx);
+                      offer_into c vid o (raw_action c idx);; ret (0, @nil N)) w) r.
+Proof.
+  intros Hwf HW Hfuse Hadm Hr. unfold sp_offer_lazy_f in Hr.
+  destruct (Nat.eqb_spec src vid) as [|Hne]; [discriminate|].
+  destruct (get_a vid st) as [av|] eqn:Hga; [|discriminate].
+  destruct (get_a src st) as [bv|] eqn:Hgb; [|discriminate].
+  destruct (wrep_get c w st vid av HW Hga) as (va & Hgva & HVa).
+  destruct (wrep_get c w st src bv HW Hgb) as (vb & Hgvb & HVb).
+  pose proof (vi_rep _ _ _ HVb) as HRb. pose proof (rep_len _ _ _ HRb) as Hlb.
+  assert (Hrefl : forall w0, wv w0 = wv w -> unext (wuw w0) = unext (wuw w) -> uevents (wuw w0) = uevents (wuw w) ->
+                  step_okf c w w0 st [] 0).
+  { intros w0 H1 H2 H3. constructor; [apply (wrep_wv c w w0 st H1 HW)|lia|exact H3]. }
+  cbn [make_offer]. unfold Interp.elem_bytes.
+  unfold bind at 1. unfold bind at 1. unfold bind at 1. rewrite (peek_vec_ok src w vb Hgvb).
+  unfold bind at 1. unfold assert_. rewrite Hlb.
+  destruct (N.ltb_spec sidx (N.of_nat (length (a_xs bv)))) as [Hlt|Hge].
+  2:{ injection Hr as <-. unfold raise.
+      cbn [res_matches_f panic_res s_out s_pk s_ret s_st s_evs s_nx].
+      split; [reflexivity|split; [reflexivity|split; [reflexivity|]]]. rewrite N.sub_diag. apply Hrefl; reflexivity. }
+  set (j := N.to_nat sidx). assert (Hj : (j < length (a_xs bv))%nat) by (unfold j; lia).
+  assert (Ej : sidx = N.of_nat j) by (unfold j; lia).
+  set (t0 := nth j (a_xs bv) 0) in *.
+  unfold ret at 1. rewrite Ej.
+  rewrite (on_vec_ok src _ w vb _ vb (wuw w) Hgvb (read_elem c vb (wuw w) (a_xs bv) j HRb Hj)).
+  set (w1 := put_vec src (Some vb) (wuw w) w).
+  unfold ret at 1. cbv zeta. fold t0.
+  set (o := {| f_ty := c_ty c; f_src := VClone (enc (szn c) t0) false; f_checked := true; f_drop := DNone |}).
+  assert (Hg1a : get_vec vid w1 = Some va).
+  { unfold w1. rewrite get_vec_put_other' by congruence. exact Hgva. }
+  assert (HW1 : WRep c w1 st) by (apply (wrep_put_same c w st src vb bv); assumption).
+  pose proof (raw_action_clone_f c va av (wuw w1) idx (enc (szn c) t0) t0 false Hwf HVa
+                (dec_enc _ _ (elem_tok c vb bv j HVb Hj)) Hfuse (Hadm va Hgva)) as Hspec.
+  assert (Hnx1 : unext (wuw w1) = unext (wuw w)) by reflexivity. rewrite Hnx1 in Hspec.
+  unfold offer_into, unwinding.
+  unfold bind at 1. unfold bind at 1. unfold on_unwind. rewrite offer_check_pass by reflexivity. cbn [f_src o].
+  destruct (put_value c av idx (tok c (unext (wuw w)))) as [xs'|p]; injection Hr as <-.
+  - destruct Hspec as (v' & u' & E & HV' & Hn' & He').
+    rewrite (on_vec_panic vid _ w1 va PUser v' u' Hg1a E).
+    unfold quiet, drop_offer. cbn [f_drop o]. unfold ret. cbn [wuw wv ulog unext ufuse].
+    cbn [res_matches_f panic_res s_out s_pk s_ret s_st s_evs s_nx].
+    split; [reflexivity|split; [reflexivity|split; [reflexivity|]]]. rewrite N.sub_diag.
+    constructor; cbn [wuw wv ulog unext ufuse].
+    + apply (wrep_wv c (put_vec vid (Some v') u' w1)); [reflexivity|]. apply wrep_after_panic; assumption.
+    + rewrite wuw_put. cbn [disarm unext]. rewrite Hn'. unfold w1. rewrite wuw_put. lia.
+    + rewrite wuw_put. unfold uevents in *. cbn [disarm ulog]. rewrite He'. reflexivity.
+  - rewrite (on_vec_panic vid _ w1 va p va (wuw w1) Hg1a Hspec).
+    unfold quiet, drop_offer. cbn [f_drop o]. unfold ret. cbn [wuw wv ulog unext ufuse].
+    cbn [res_matches_f panic_res s_out s_pk s_ret s_st s_evs s_nx].
+    split; [reflexivity|split; [reflexivity|split; [reflexivity|]]]. rewrite N.sub_diag.
+    constructor; cbn [wuw wv ulog unext ufuse].
+    + apply (wrep_wv c (put_vec vid (Some va) (wuw w1) w1)); [reflexivity|].
+      apply (wrep_put_same c w1 st vid va av); assumption.
+    + unfold w1. rewrite !wuw_put. destruct (wuw w); cbn; lia.
+    + unfold w1. rewrite !wuw_put. unfold uevents. destruct (wuw w); reflexivity.
+Qed.
+
 Lemma exec_fused c w st k o r :
   cfg_wf c -> WRep c w st -> ufuse (wuw w) = Some k ->
   spec_step_f c st (unext (wuw w)) (Some k) o = Some r -> admissible c w o ->
